@@ -207,6 +207,9 @@ def run_property(spec: PropertySpec, tier: str, seed: int, reg: Registry) -> Run
         run.callees = getattr(run, 'callees', set()) | res.get('callees', set())
         run.model_ops = getattr(run, 'model_ops', set()) | res.get('model_ops', set())
         run.pins = getattr(run, 'pins', set()) | res.get('pins', set())
+        if res.get('block'):
+            run.blocks = getattr(run, 'blocks', {})
+            run.blocks[res['block']['function']] = res['block']
         cc = run.cross.setdefault(q, {'inputs': 0, 'agreements': 0, 'disagreements': [], 'skipped': None, 'paths_hit': 0})
         for key in ('inputs', 'agreements', 'paths_hit'):
             cc[key] += res['cross'].get(key, 0)
@@ -298,15 +301,18 @@ def _case_worker(task):
         except Exception as e:
             cc = {'disagreements': [], 'skipped': f'cross-check crashed: {type(e).__name__}: {e}'}
         used, callees, mops, pins = set(), set(), set(), set()
+        block = None
         for s_ in rep.summaries:
             if s_.ctx is not None:
                 used |= s_.ctx.used_lemmas
                 callees |= {c[0] for c in s_.ctx.ghost.get('calls', [])}
                 mops |= set(getattr(s_.ctx, 'used_model_ops', ()))
                 pins |= set(s_.ctx.used_expr_contracts)
+                if s_.ctx.ghost.get('entry_cut'):
+                    block = dict(s_.ctx.ghost['entry_cut'], assumed_mid_condition=(con.entry_cut or {}).get('doc', ''))
         return {'file': rep.file, 'sha256': rep.sha256, 'lines': rep.lines, 'verdicts': rep.verdicts, 'paths': rep.paths, 'mode': ('S (skeleton / typestate)' if con.skeleton else 'P'),
                 'undecided': rep.undecided, 'dropped': rep.dropped, 'interpreted': rep.interpreted, 'seconds': rep.seconds,
-                'cross': cc, 'used_lemmas': used, 'callees': callees, 'model_ops': mops, 'pins': pins}
+                'cross': cc, 'used_lemmas': used, 'callees': callees, 'model_ops': mops, 'pins': pins, 'block': block}
     except Exception as e:
         return {'crash': f'{type(e).__name__}: {e}\n{traceback.format_exc()[-1500:]}'}
 
@@ -564,6 +570,8 @@ def finish(run: Run, evidence_path: str, checker_cmd: str) -> int:
                                      + ', '.join(getattr(run.reg.get(q), 'properties', ()) or ['-']))[:400]}
             for q in sorted(getattr(run, 'callees', set())) if q not in run.reports],
         'pinned_expression_contracts': sorted(getattr(run, 'pins', set())),
+        # functions verified from a cut statement on: the statements before it are NOT verified, the mid-condition is ASSUMED
+        'block_contracts': list(getattr(run, 'blocks', {}).values()),
         'library_contract_conformance': {'label': 'B (native tests of the assumed library contracts on the installed versions; not a proof)',
                                          'tested': len(getattr(run, 'libconf', {}).get('tested', [])),
                                          'failed': [list(x) for x in getattr(run, 'libconf', {}).get('failed', [])],
@@ -584,7 +592,9 @@ def finish(run: Run, evidence_path: str, checker_cmd: str) -> int:
         'all_obligations': {n: st for n, (st, vs) in sorted(agg.items()) if vs[0].expect == 'valid'},
     }
     ev = {'property_id': pid, 'tier': run.tier, 'seed': run.seed, 'level': spec.level, 'coverage': coverage,
-          'assumptions': [A_PY] + spec.assumptions + [A_LIB], 'wall_s': round(time.time() - run.t0, 2),
+          'assumptions': [A_PY] + spec.assumptions + [A_LIB] + [
+              f"block contract of {b['function']}: lines {b['unverified_lines']} are not verified; ASSUMED at line {b['verified_from_line']}: {b['assumed_mid_condition']}"
+              for b in getattr(run, 'blocks', {}).values()], 'wall_s': round(time.time() - run.t0, 2),
           'violations': len(violations)}
     os.makedirs(os.path.dirname(evidence_path), exist_ok=True)
     with open(evidence_path, 'w') as f:
